@@ -1,6 +1,9 @@
 //! zv: bounded exhaustive exploration of the real zeep-lib (DESIGN.md §3).
 
 mod corpus;
+mod extract;
+mod names;
+mod reference;
 mod interpose;
 mod props;
 mod report;
